@@ -14,7 +14,8 @@
                                   then ColdFetch — metadata and vector come from different steps
      bulk_query_with_source       HotBulk (one snapshot); per hit: ColdTok; (Match: ColdMeta); then one
                                   ColdBulk for everything still missing (vector+metadata, one lock hold)
-     insert                       HotLen; L1Inv; index.read x2 (dimension, metric); ColdIns (ONE atomic
+     insert                       HotLen; [at the hard limit: HotDrain; per drained entry ColdFetch; ColdMeta;
+                                  (missing: index.read x2; ColdRepair = cold_tier.insert of the MIRROR copy)]; L1Inv; index.read x2 (dimension, metric); ColdIns (ONE atomic
                                   step: write gate held over WAL append + index/store update);
                                   qc.invalidate_doc; qc.invalidate_for_insert; ColdTok; HotIns(token)
      delete                       ColdDel (atomic under the write gate); HotDel; [L1Inv; qc.invalidate_doc]
@@ -30,10 +31,10 @@
    register (writes, and observations made by cold-tier reads), each call's own log entries
    (`c_facts`).
 
-   Restrictions (stated in checks/meta/C05.json): circuit breakers closed; hot tier below its hard
-   limit (no emergency drain inside insert) and no background flush task — their effect on the
-   mirror is covered by the `PokeHot` environment step, their repair write of an orphan into the
-   cold tier is not modelled; vectors are valid (accepted by HnswBackend::insert); `update_metadata`
+   Restrictions (stated in checks/meta/C05.json): circuit breakers closed; the emergency
+   drain inside insert IS modelled (HotDrain / ColdRepair); the background flush task (same drain +
+   reconcile code, run by a maintenance thread) is not a call of the model — its effect on the mirror
+   is covered by `PokeHot`; a failing repair (re-insertion of failed entries) is not modelled; vectors are valid (accepted by HnswBackend::insert); `update_metadata`
    and `batch_delete` are not modelled; statistics / access-logger / breaker locks are not steps. *)
 From Coq Require Import List NArith ZArith Bool Arith.
 From Kyro Require Import Model.TMap Model.Tiered.
@@ -100,7 +101,9 @@ Inductive prog :=
 | ColdBulk (ids : list N) (k : list (option (vec * meta)) -> prog)
 | ColdIns (id : N) (v : vec) (m : meta) (k : prog)
 | ColdDel (id : N) (k : bool -> prog)
-| Silent (l : list linstr) (k : prog).
+| Silent (l : list linstr) (k : prog)
+| HotDrain (k : list (N * hent) -> prog)              (* hot_tier.drain_for_flush: atomic take of ALL mirror entries *)
+| ColdRepair (id : N) (v : vec) (m : meta) (k : prog).  (* reconcile: cold_tier.insert of a drained mirror entry *)
 
 Definition is_none {A} (o : option A) : bool := match o with None => true | Some _ => false end.
 
@@ -119,6 +122,7 @@ Fixpoint fill (part : list (N * option (vec * meta))) (recs : list (option (vec 
 
 Section Conc.
   Variable digest : vec -> dgst.
+  Variable hard : nat.   (* hot_tier_hard_limit *)
 
   Definition rec_tok (r : crec) : token := (c_ver r, digest (c_vec r)).
 
@@ -231,8 +235,31 @@ Section Conc.
         | _ :: _ => ColdBulk missing (fun recs => Ret (RBulk (fill part recs)))
         end)).
 
+  (* reconcile_drained_hot_tier_documents, one drained entry after the other: two cold-tier reads
+     (fetch_document_with_coherence, fetch_metadata); both present -> the cold tier stays authoritative
+     (L1a invalidated when the embeddings differ — f32 `!=`); otherwise "repair": cold_tier.insert of
+     the MIRROR's vector and metadata.  `clear` = should_clear_query_cache.  Repairs of valid vectors do
+     not fail, so the re-insertion of failed entries is not modelled. *)
+  Fixpoint drain_loop (docs : list (N * hent)) (clear : bool) (k : bool -> prog) : prog :=
+    match docs with
+    | [] => k clear
+    | (id, h) :: r =>
+        ColdFetch true id (fun oe =>
+          ColdMeta id (fun om =>
+            match oe, om with
+            | Some (ce, ct), Some cm =>
+                let ed := negb (vec_feqb ce (h_vec h)) in
+                let dv := negb (tok_eqb ct (h_tok h)) || ed || negb (meta_eqb cm (h_meta h)) in
+                if ed then L1Inv id (drain_loop r (clear || dv) k) else drain_loop r (clear || dv) k
+            | _, _ =>
+                Silent (cs LkIndex MRead)
+                  (Silent (cs LkIndex MRead)
+                     (ColdRepair id (h_vec h) (h_meta h) (drain_loop r true k)))
+            end))
+    end.
+
   Definition p_insert (id : N) (v : vec) (m : meta) : prog :=
-    HotLen (fun _ =>
+    let body :=
       L1Inv id
         (Silent (cs LkIndex MRead)
            (Silent (cs LkIndex MRead)
@@ -243,7 +270,16 @@ Section Conc.
                           match ot with
                           | Some t => HotIns id (mkH v (meta_canon m) t) (Ret (RIns true))
                           | None => Ret (RIns false)
-                          end)))))))).
+                          end))))))) in
+    HotLen (fun n =>
+      if hard <=? n then
+        (* emergency_flush_hot_tier *)
+        HotDrain (fun docs =>
+          match docs with
+          | [] => body
+          | _ :: _ => drain_loop docs false (fun clear => if clear then Silent qc_clear body else body)
+          end)
+      else body).
 
   Definition p_delete (id : N) : prog :=
     ColdDel id (fun b1 =>
@@ -327,6 +363,10 @@ Section Conc.
         let found := mem id (s_cold s) in
         Some (set_cold s (remove id (s_cold s)), k found, [LW id None], gate_delete found)
     | Silent l k => Some (s, k, [], l)
+    | HotDrain k => Some (set_hot s [], k (s_hot s), [], cs LkHot MWrite)
+    | ColdRepair id v m k =>
+        let r := new_rec s id v m in
+        Some (set_cold s (put id r (s_cold s)), k, [LW id (Some r)], gate_insert)
     end.
 
   (* a call run alone to completion (protocol-skeleton correspondence) *)
@@ -534,42 +574,42 @@ Definition post_ok (s : shared) (post : postobs) : bool :=
                     opt_eqb crec_eqb (lookup (fst p) (s_cold s)) c) post.
 
 (* (i) a call run alone: (result agrees, post-state agrees, lock skeleton agrees) *)
-Definition skel_check (sh : shared) (c : call) (r : result) (post : postobs) (locks : list linstr)
+Definition skel_check (hard : nat) (sh : shared) (c : call) (r : result) (post : postobs) (locks : list linstr)
   : bool * bool * bool :=
-  match solo dg_id sh c with
+  match solo dg_id hard sh c with
   | Some (s1, r1, l1) => (result_eqb r1 r, post_ok s1 post, list_eqb linstr_eqb l1 locks)
   | None => (false, false, false)
   end.
 
 (* (ii) directed schedules: phases (t, Some n) = thread t performs n atomic steps, (t, None) = thread t
    runs until its current call has returned (at least one step) *)
-Fixpoint run_steps (g : gstate) (t n : nat) : option gstate :=
+Fixpoint run_steps (hard : nat) (g : gstate) (t n : nat) : option gstate :=
   match n with
   | O => Some g
-  | S m => match cstep dg_id g (Run t) with Some g1 => run_steps g1 t m | None => None end
+  | S m => match cstep dg_id hard g (Run t) with Some g1 => run_steps hard g1 t m | None => None end
   end.
 Definition thread_idle (g : gstate) (t : nat) : bool :=
   match nth_error (g_thr g) t with Some ts => is_none (t_cur ts) | None => true end.
-Fixpoint run_call (fuel : nat) (g : gstate) (t : nat) : option gstate :=
+Fixpoint run_call (hard : nat) (fuel : nat) (g : gstate) (t : nat) : option gstate :=
   match fuel with
   | O => None
   | S f =>
-      match cstep dg_id g (Run t) with
-      | Some g1 => if thread_idle g1 t then Some g1 else run_call f g1 t
+      match cstep dg_id hard g (Run t) with
+      | Some g1 => if thread_idle g1 t then Some g1 else run_call hard f g1 t
       | None => None
       end
   end.
-Fixpoint run_phases (g : gstate) (ph : list (nat * option nat)) : option gstate :=
+Fixpoint run_phases (hard : nat) (g : gstate) (ph : list (nat * option nat)) : option gstate :=
   match ph with
   | [] => Some g
-  | (t, Some n) :: r => match run_steps g t n with Some g1 => run_phases g1 r | None => None end
-  | (t, None) :: r => match run_call 400 g t with Some g1 => run_phases g1 r | None => None end
+  | (t, Some n) :: r => match run_steps hard g t n with Some g1 => run_phases hard g1 r | None => None end
+  | (t, None) :: r => match run_call hard 400 g t with Some g1 => run_phases hard g1 r | None => None end
   end.
 Definition results_of (g : gstate) : list (nat * nat * result) :=
   flat_map (fun e => match e with HRes t c _ r _ _ => [(t, c, r)] | _ => [] end) (g_hist g).
-Definition phase_check (sh0 : shared) (threads : list (list call)) (ph : list (nat * option nat))
+Definition phase_check (hard : nat) (sh0 : shared) (threads : list (list call)) (ph : list (nat * option nat))
            (expected : list (nat * nat * result)) (post : postobs) : bool * bool :=
-  match run_phases (ginit sh0 threads) ph with
+  match run_phases hard (ginit sh0 threads) ph with
   | Some g =>
       (forallb (fun e => existsb (fun x => Nat.eqb (fst (fst x)) (fst (fst e)) &&
                                            Nat.eqb (snd (fst x)) (snd (fst e)) &&
